@@ -14,3 +14,6 @@ pub mod world;
 pub mod scen_traffic;
 pub mod scen_life;
 pub mod scen_wait;
+pub mod scen_seq;
+pub mod scen_fut;
+pub mod scen_mem;
